@@ -61,7 +61,7 @@ func genHistory(r *Rng, seed uint64, tier string) *C15Spec {
 			cc := genCharCfg(r, charOpt{small: r.Chance(0.5), budget: 5000, maxLen: 10, maxReq: 4, noEmptied: true})
 			s.Pool = append(s.Pool, PoolEntry{Char: &cc, Ptr: r.Bool()})
 		} else {
-			w := genWLCfg(r, wlOpt{list: listOpt{min: 1, max: 7, twins: 0.2, precap: 0.1, caseless: 0.1, dups: 0.15}, maxLen: 4})
+			w := genWLCfg(r, wlOpt{list: listOpt{min: 1, max: 7, twins: 0.2, precap: 0.1, caseless: 0.1, dups: 0.15, emptyWord: 0.08}, maxLen: 4})
 			if w.Sep.Kind == "altempty" {
 				w.Sep = SepCfg{Kind: "char", Char: "-"}
 			}
@@ -245,6 +245,11 @@ func newLive(p PoolEntry) (*liveEntry, string) {
 		r.SeparatorFunc = p.WL.Sep.fn()
 	}
 	e.wl = r
+	if !p.Ptr {
+		// the caller keeps a copy of the constructed recipe (variant := *base) and works with that
+		v := *r
+		e.wl = &v
+	}
 	return e, ""
 }
 
